@@ -20,6 +20,10 @@ pub mod c18;
 pub mod c19;
 pub mod c20;
 pub mod c21;
+pub mod c24;
+pub mod c25;
+pub mod c26;
+pub mod parfp;
 pub mod c31;
 pub mod c32;
 pub mod c33;
@@ -51,6 +55,9 @@ pub fn dispatch(ctx: &Ctx) -> i32 {
         "C19" => c19::run(ctx),
         "C20" => c20::run(ctx),
         "C21" => c21::run(ctx),
+        "C24" => c24::run(ctx),
+        "C25" => c25::run(ctx),
+        "C26" => c26::run(ctx),
         "C31" => c31::run(ctx),
         "C32" => c32::run(ctx),
         "C33" => c33::run(ctx),
